@@ -454,7 +454,8 @@ pub fn run_plan<T: HCfg>(plan: &Value, detail: u8, emit: &mut dyn FnMut(&Value))
         }
     }
     emit(&json!({"a":"end","t":w.now(),"faults_hit":faults_hit,
-                 "silent_spectator_check": pb(plan, "silent_spectator_check", false)}));
+                 "silent_spectator_check": pb(plan, "silent_spectator_check", false),
+                 "after_drop_progress": pu(plan, "after_drop_progress", 0)}));
     Ok(())
 }
 
